@@ -15,7 +15,7 @@ Section sim.
   Lemma hold_chs_sim : forall vs c0 st cs st' cmds pre post s K I,
     tr_hold_chs c0 vs st = Ok (cs, st') -> cmds = pre ++ cs ++ post -> v_pc s = length pre ->
     (c0 + length vs = length (v_cur s))%nat -> Pact st s -> Pplain st s -> Idep Fs K st s I -> Knz K ->
-    (forall ch b fs, nth_off c0 vs ch = Some (b, Some fs) -> K (ch, mk_key fs) /\ In (ch, fs) Fs) ->
+    (forall ch b fs, nth_off c0 vs ch = Some (b, Some fs) -> mk_key fs <> [] -> K (ch, mk_key fs) /\ In (ch, fs) Fs) ->
     length (t_iters st) = length I -> dyn_ok (t_iters st) I ->
     exists s', reach cmds s s' /\ v_pc s' = (length pre + length cs)%nat /\ Pact st' s' /\ Pplain st' s' /\ Idep Fs K st' s' I /\
       same_ctl s s' /\
@@ -39,16 +39,28 @@ Section sim.
                   (forall ck, snd ck <> [] -> sel_dep (snd ck) (nth_off c0 ((b, o) :: vs) (fst ck)) = None ->
                               alookup ck_eqb ck (v_regs s1) = alookup ck_eqb ck (v_regs s))).
       { destruct o as [fs|].
-        - destruct (tr_set_indexed c0 b fs st) as [[c1 st1]|] eqn:E1; cbn [bind] in HT; [|discriminate].
+        - unfold tr_set_indexed in HT. destruct (key_eqb (mk_key fs) []) eqn:Ez.
+          { cbn [bind] in HT. destruct (tr_set_voltage c0 b st) as [c1 st1] eqn:E1.
+            destruct (tr_hold_chs (S c0) vs st1) as [[c2 st2]|] eqn:E2; cbn [bind] in HT; [|discriminate].
+            inversion HT; subst cs st2; clear HT.
+            assert (Hc' : cmds = pre ++ c1 ++ (c2 ++ post)) by (rewrite Hc, <- app_assoc; reflexivity).
+            destruct (ch_plain Fs Fs_inj c0 b st c1 st1 cmds pre (c2 ++ post) s K I E1 Hc' Hpc Hlt HA HP HD HK)
+              as (s1 & R & P1 & A1 & PP1 & D1 & SC & (v & Nv & Hv) & O & F).
+            exists c1, st1, c2. split; auto. split; auto. split; [apply (set_voltage_summ _ _ _ _ _ E1)|].
+            exists s1. repeat (split; auto).
+            exists v. split; auto. unfold hold_val; cbn. rewrite zero_key_aff; [exact Hv|]. now apply key_eqb_spec. }
+          destruct (tr_set_indexed_nz c0 b fs st) as [[c1 st1]|] eqn:E1; cbn [bind] in HT; [|discriminate].
           destruct (tr_hold_chs (S c0) vs st1) as [[c2 st2]|] eqn:E2; cbn [bind] in HT; [|discriminate].
           inversion HT; subst cs st2; clear HT.
-          destruct (HKin c0 b fs) as [HKk HIn]; [cbn; now rewrite Nat.eqb_refl|].
+          assert (Hnz : mk_key fs <> []) by (intros X; rewrite X in Ez; cbn in Ez; discriminate).
+          destruct (HKin c0 b fs) as [HKk HIn]; [cbn; now rewrite Nat.eqb_refl|exact Hnz|].
           assert (Hc' : cmds = pre ++ c1 ++ (c2 ++ post)) by (rewrite Hc, <- app_assoc; reflexivity).
           destruct (ch_indexed Fs Fs_inj c0 b fs st c1 st1 cmds pre (c2 ++ post) s K I E1 Hc' Hpc Hlt HA HP HD HK HKk HIn HLI HDyn)
             as (s1 & R & P1 & A1 & PP1 & D1 & SC & V & O & F).
           exists c1, st1, c2. split; auto. split; auto. split; [apply (set_indexed_summ _ _ _ _ _ _ E1)|].
           exists s1. repeat (split; auto).
-          intros ck Hnz Hsel. apply F. intros X. subst ck. cbn [fst snd nth_off] in Hsel. rewrite Nat.eqb_refl in Hsel. cbn in Hsel.
+          intros ck Hnzk Hsel. apply F. intros X. subst ck. cbn [fst snd nth_off] in Hsel. rewrite Nat.eqb_refl in Hsel. cbn in Hsel.
+          rewrite Ez in Hsel.
           assert (Y : key_eqb (mk_key fs) (mk_key fs) = true) by now apply key_eqb_spec. rewrite Y in Hsel. discriminate.
         - destruct (tr_set_voltage c0 b st) as [c1 st1] eqn:E1.
           destruct (tr_hold_chs (S c0) vs st1) as [[c2 st2]|] eqn:E2; cbn [bind] in HT; [|discriminate].
@@ -64,7 +76,7 @@ Section sim.
       destruct (IH (S c0) st1 c2 st' cmds (pre ++ c1) post s1 K I E2 Hc2) as (s' & R2 & Pc2 & A2 & P2 & D2 & SC2 & V2 & O2 & F2); auto.
       + rewrite app_length. exact Pc1.
       + destruct SC1 as (_ & _ & _ & L). rewrite L. cbn in Hlen. lia.
-      + intros ch b' fs' Hn. apply (HKin ch b' fs'). cbn [nth_off]. destruct (Nat.eqb ch c0) eqn:Ec; auto.
+      + intros ch b' fs' Hn Hnz'. apply (HKin ch b' fs'); auto. cbn [nth_off]. destruct (Nat.eqb ch c0) eqn:Ec; auto.
         apply Nat.eqb_eq in Ec. subst. rewrite nth_off_lt in Hn by lia. discriminate.
       + congruence.
       + rewrite Its1; auto.
